@@ -484,7 +484,13 @@ func Compare(m Mode, c *Case, obs Observed, mr *modelResp, isMutation bool) (dif
 			if !topLevelSerial(obs.Log) {
 				return "mutation: work of a later top-level field ran before an earlier one had finished", false
 			}
-			if !sameStrings(topLevelOrder(obs.Log), topLevelOrder(mr.Log)) {
+			ro, mo := topLevelOrder(obs.Log), topLevelOrder(mr.Log)
+			if len(mr.KfThunk) > 0 && len(ro) < len(mo) {
+				// D-04c region: the failing deferred value ends the whole execution, later top-level fields do not
+				// run at all; those that ran must still be the first ones, in document order
+				mo = mo[:len(ro)]
+			}
+			if !sameStrings(ro, mo) {
 				return "mutation: top-level fields did not run in document order", false
 			}
 		}
